@@ -850,7 +850,7 @@ class SuitBitfield(SuitObject):
         """Dump SUIT representation to cbor encoded bytes."""
         value = 0
         for bit in self.value:
-            value += self.deserialize_cbor(bit.to_cbor())
+            value |= self.deserialize_cbor(bit.to_cbor())
         return self.serialize_cbor(value)
 
     @classmethod
